@@ -191,6 +191,8 @@ type eval struct {
 	viaIface    bool // the value is reached through an interface
 	ifaceDirect bool // ... and is the very value the interface holds (through pointers)
 	onIface     bool // the tag sits on a field of type interface{}
+
+	cat string // Validate(): the catalogue kind of the value
 }
 
 type pos struct {
@@ -427,6 +429,7 @@ func (w *walker) walk(td *gen.TD, v reflect.Value, p pos) {
 	}
 	if isCat && info.valid != nil {
 		w.add(p, "Validate()", info.valid(v), false)
+		w.evals[len(w.evals)-1].cat = catBase(td.Kind)
 	}
 }
 
